@@ -56,7 +56,7 @@ impl Prop for C15 {
     }
     fn rule(&self) -> &'static str {
         "append-only kind: after a short history (in half of the runs ending with an interrupted backup that leaves unindexed packs) the repository is marked append-only, then a program of 5-15 random public operations runs, each through a fresh handle: backup, delete_snapshots, prune (options from the full grid), repair_index (+/- read_all), \
-         repair_snapshots (+/- delete), rewrite_snapshots / rewrite_snapshots_and_trees (+/- forget), apply_config (anything but clearing the flag), add_key, delete_key, copy into the repository, merge, save_snapshots; oracle on the op log of every operation: \
+         repair_snapshots (+/- delete), rewrite_snapshots / rewrite_snapshots_and_trees (+/- forget), apply_config (anything but clearing the flag), add_key, delete_key, copy into the repository, merge, save_snapshots, and (through ONE handle) a config change that tries to clear the flag but is refused for another reason followed by delete_snapshots; oracle on the op log of every operation: \
          no remove and no overwrite of a snapshot, index or pack file; operations of the destructive set (delete_snapshots, prune, repair_index, repair_snapshots with delete, rewrite with forget, config change) return Err and the log shows no write/remove at all between their start and end; \
          the others still work (a backup in append-only mode yields a snapshot that reads back). dry-run kind: backup, repair_index, repair_snapshots, rewrite each with its dry-run flag on a state where the wet run (executed on a fork) does write: zero writes, zero removes; prune_plan alone writes nothing. \
          evaluations = operations judged; non-trivial = a destructive operation was attempted / the wet twin wrote something; distinct = hash(program)"
@@ -141,7 +141,7 @@ impl Prop for C15 {
                 return rep;
             }
             for i in 0..s.nops {
-                let choice = rng.usize(13);
+                let choice = rng.usize(14);
                 let mode = if s.scheduled && rng.chance(1, 2) { sim.draw_mode(true, &[0, 1], false) } else { Mode::Free };
                 let (st, ky, sched, seed) = (sim.store.clone(), sim.key.clone(), sim.sched.clone(), sim.seed);
                 let log0 = sim.store.log_len();
@@ -220,6 +220,28 @@ impl Prop for C15 {
                             let other = other.to_indexed()?;
                             let dst = repo_open(&st, 1, &ky)?.to_indexed_ids()?;
                             other.copy(&dst, [&sn])
+                        }))
+                    }
+                    12 => {
+                        // one handle: a config change that tries to clear the flag but is refused for another
+                        // reason (stored config untouched), then a removal through the SAME handle - its view
+                        // of the configuration must still be append-only
+                        let bad = match rng.usize(3) {
+                            0 => ConfigOptions::default().set_append_only(false).set_max_packsize_tolerate_percent(50u32),
+                            1 => ConfigOptions::default().set_append_only(false).set_min_packsize_tolerate_percent(150u32),
+                            _ => ConfigOptions::default().set_append_only(false).set_max_packsize_tolerate_percent(99u32).set_compression(1),
+                        };
+                        let sn = pick_sn;
+                        ("refused_config_change+delete_snapshots(same handle)".into(), true, sim.run(&mode, move || {
+                            let mut repo = repo_open(&st, 1, &ky)?;
+                            match repo.apply_config(&bad) {
+                                // accepted after all: the flag is legitimately gone, nothing to judge
+                                Ok(_) => Err(rustic_core::RusticError::new(rustic_core::ErrorKind::Internal, "harness: premise failed, the config change was accepted")),
+                                Err(_) => match sn {
+                                    Some(id) => repo.delete_snapshots(&[id]),
+                                    None => repo.delete_snapshots(&[]),
+                                },
+                            }
                         }))
                     }
                     11 => ("merge".into(), false, sim.run(&mode, move || {
